@@ -194,8 +194,24 @@ pub async fn one_sequence(o: &mut Out, r: &mut Rng, regime: u32, nops: usize, wf
     }
     let mut forced_rec: Option<Rec> = None;
     let mut forced_key: Option<Key> = None;
+    let mut forced_user: Option<u64> = None;
     if script.is_empty() && r.chance(1, 3) {
-        if r.chance(1, 2) {
+        let pick = r.below(3);
+        if pick == 2 {
+            // a value state staged in a transaction, queried, then rolled back: it must be gone for every read
+            let u = r.below(3);
+            let e = 1 + r.below(5);
+            forced_rec = Some(Rec::Val(u, e, version_of(u, e, r), r.below(4)));
+            forced_user = Some(u);
+            script.push_back((0, None));            // begin
+            script.push_back((3, Some(false)));     // set the value state (pending)
+            script.push_back((112, Some(false)));   // user-state query answered from the pending record
+            script.push_back((115, Some(false)));   // user data
+            script.push_back((2, None));            // rollback
+            script.push_back((108, Some(false)));   // get by key
+            script.push_back((112, Some(false)));
+            script.push_back((111, Some(false)));
+        } else if pick == 1 {
             // a cached record rewritten inside a transaction, then read singly and in a batch
             let rec = Rec::Node(r.below(3), r.below(4));
             forced_rec = Some(rec);
@@ -225,9 +241,11 @@ pub async fn one_sequence(o: &mut Out, r: &mut Rng, regime: u32, nops: usize, wf
             103 => { forced_rec = forced_rec.map(|x| match x { Rec::Node(l, p) => Rec::Node(l, p + 7), o => o }); opc = 3; }
             104 => { forced_rec = Some(Rec::Azks(1 + r.below(5), 1 + r.below(9))); forced_key = Some(Key::Azks); opc = 3; }
             108 | 109 => { opc = 8; }
+            112 => { opc = 12; }
+            115 => { opc = 15; }
             111 => { opc = 11; }
             119 => { opc = 19; }
-            _ => { if scripted.is_none() { forced_rec = None; forced_key = None; } }
+            _ => { if scripted.is_none() { forced_rec = None; forced_key = None; forced_user = None; } }
         }
         let scripted_flush = matches!(scripted, Some((119, _)));
         let before = db.op_count();
@@ -325,8 +343,8 @@ pub async fn one_sequence(o: &mut Out, r: &mut Rng, regime: u32, nops: usize, wf
                 (format!("bget {} {} {}", ks.len(), ks.iter().map(fmt_key).collect::<Vec<_>>().join(" "), fail as u8), a, Some(t))
             }
             12 | 13 | 14 => {
-                let u = r.below(3);
-                let f = gen_flag(r);
+                let u = if scripted.is_some() && forced_user.is_some() { forced_user.unwrap() } else { r.below(3) };
+                let f = if scripted.is_some() && forced_user.is_some() { if r.chance(1, 2) { F::MaxEpoch } else { gen_flag(r) } } else { gen_flag(r) };
                 db.fail_next.store(fail, Ordering::SeqCst);
                 let res = mgr.get_user_state(&user(u), f).await;
                 db.fail_next.store(false, Ordering::SeqCst);
@@ -335,7 +353,7 @@ pub async fn one_sequence(o: &mut Out, r: &mut Rng, regime: u32, nops: usize, wf
                 (format!("ustate {} {} {}", u, fmt_flag(&f), fail as u8), a, Some(t))
             }
             15 => {
-                let u = r.below(3);
+                let u = if scripted.is_some() && forced_user.is_some() { forced_user.unwrap() } else { r.below(3) };
                 db.fail_next.store(fail, Ordering::SeqCst);
                 let res = mgr.get_user_data(&user(u)).await;
                 db.fail_next.store(false, Ordering::SeqCst);
